@@ -391,3 +391,75 @@ example : observe (.aead13 .aesgcm 16) .tls13 .tls13 32 128
 end Ex
 
 end TLX.Props.C01Pipeline
+
+-- ====================================================================== C. handshake: the two hello records
+namespace TLX.Props.C01Pipeline
+open TLX TLX.Spec.TlsHello TLX.Lemmas.Pipeline
+
+/-- C — for a ClientHello / ServerHello pair encoded per RFC (`Spec.TlsHello`, any extensions incl. none, any session
+    id, record versions as the RFCs prescribe: `Negotiated`), `handle_tls_record` on the two records leaves the session
+    with the negotiated version, the client random, and — exactly when `Session.generate_keys` (`Pipeline.genKeys`: suite
+    table, key log, key schedule, `Decryptor.__init__`) installs a decryptor for (version, suite, client random, server
+    random, extensions, compression) — `can_decrypt = True` with that decryptor; in every other outcome (unknown suite,
+    no usable key-log line, an exception) `can_decrypt = False`. -/
+theorem server_hello_installs (H : Crypto.Prims) (P : Cipher.Prims) (kl : List Keylog.Key) (m : Bool)
+    (s0 : Session.St RecordLayer.Dec) (h0 : s0.srvCC = false ∧ s0.cliCC = false)
+    (ch : ClientHello) (hch : ch.WellFormed) (sh : ServerHello) (hsh : sh.WellFormed)
+    (rvC rvS : Bytes) (hrc : rvC.length = 2) (hrs : rvS.length = 2) (carC carS : List Nat)
+    (v : Session.Ver) (hneg : Negotiated rvS sh v) :
+    let O := Pipeline.ops H P kl
+    let s2 := Session.handleRecord O m (Session.handleRecord O m s0 ⟨hsRecord rvC (encodeClientHello ch), carC⟩ false)
+      ⟨hsRecord rvS (encodeServerHello sh), carS⟩ true
+    s2.ver = some v ∧ s2.cr = some ch.random ∧
+    match Pipeline.genKeys H P kl (some v) sh.cipherSuite ch.random sh.random
+        ((sh.extensions.getD []).map extPair) sh.compressionMethod with
+    | .installed d => s2.canDecrypt = true ∧ s2.dec = some d
+    | _ => s2.canDecrypt = false := by
+  intro O s2
+  obtain ⟨c1, c2, c3⟩ := hsRecord_fields rvC (encodeClientHello ch) carC hrc
+  obtain ⟨d1, d2, d3⟩ := hsRecord_fields rvS (encodeServerHello sh) carS hrs
+  obtain ⟨hcr, chrest, hchd⟩ := clientHello_layout ch hch
+  -- the ClientHello record
+  have hs1 : Session.handleRecord O m s0 ⟨hsRecord rvC (encodeClientHello ch), carC⟩ false
+      = Session.pushMeta m (Session.clientHello s0 ⟨hsRecord rvC (encodeClientHello ch), carC⟩)
+          ⟨hsRecord rvC (encodeClientHello ch), carC⟩ false := by
+    unfold Session.handleRecord Session.handleRecordRaw
+    rw [c1]
+    simp only [if_true, Session.handshakeRecord, h0.1, h0.2, Bool.or_self, Bool.false_eq_true, if_false, c3]
+    rw [hchd]
+    simp only [if_true, Session.Out.st]
+  -- the ServerHello record
+  obtain ⟨shrest, hshd⟩ : ∃ rest, encodeServerHello sh = 2 :: rest :=
+    ⟨_, by simp only [encodeServerHello, handshake, Lemmas.TlsHello.u8_eq, List.cons_append, List.nil_append]; rfl⟩
+  have hcore : ∀ (s1 : Session.St RecordLayer.Dec), s1.srvCC = false → s1.cliCC = false → s1.chSeen = true →
+      s1.cr = some ch.random →
+      let s2 := Session.handleRecord O m s1 ⟨hsRecord rvS (encodeServerHello sh), carS⟩ true
+      s2.ver = some v ∧ s2.cr = some ch.random ∧
+      match Pipeline.genKeys H P kl (some v) sh.cipherSuite ch.random sh.random
+          ((sh.extensions.getD []).map extPair) sh.compressionMethod with
+      | .installed d => s2.canDecrypt = true ∧ s2.dec = some d
+      | _ => s2.canDecrypt = false := by
+    intro s1 a1 a2 a3 a4
+    have hsh' := serverHello_layout O s1 rvS hrs sh hsh carS
+    rw [chooseVersion_negotiated _ rvS sh hsh v hneg] at hsh'
+    have hg : O.genKeys = Pipeline.genKeys H P kl := rfl
+    simp only [Session.handleRecord, Session.handleRecordRaw, d1, if_true, Session.handshakeRecord, a1, a2,
+      Bool.or_self, Bool.false_eq_true, if_false, d3]
+    rw [hshd] at hsh' ⊢
+    simp only [if_true, hsh', Session.serverHelloKeys, Session.latch, a3, a4, hg]
+    have h12 : ((2 : UInt8) = 1) = False := by decide
+    simp only [h12, if_false]
+    cases Pipeline.genKeys H P kl (some v) sh.cipherSuite ch.random sh.random
+        ((sh.extensions.getD []).map extPair) sh.compressionMethod <;>
+      simp [Session.tryExcept, Session.Out.st, Session.pushMeta, Session.St.push] <;>
+      cases m <;> simp
+  have hcr' : (Session.pushMeta m (Session.clientHello s0 ⟨hsRecord rvC (encodeClientHello ch), carC⟩)
+      ⟨hsRecord rvC (encodeClientHello ch), carC⟩ false).cr = some ch.random := by
+    have : (Session.clientHello s0 ⟨hsRecord rvC (encodeClientHello ch), carC⟩).cr = some ch.random := by
+      simp only [Session.clientHello, c3, hcr]
+    cases m <;> simpa [Session.pushMeta, Session.St.push] using this
+  have := hcore _ (by cases m <;> rfl) (by cases m <;> rfl) (by cases m <;> rfl) hcr'
+  simp only [s2, hs1]
+  exact this
+
+end TLX.Props.C01Pipeline
